@@ -1,7 +1,9 @@
 """--parse-only drops `= ...` from NamedTuple fields that have defaults.
 
 Exit status 1 = defect present, 0 = absent, 2 = inconclusive (preconditions of the input failed).
-Mechanism keys: stubtest:parse-only:namedtuple-class.__new__:is inconsistent, runtime parameter "_" has a default value but stub parameter does not"""
+Mechanism keys:
+  stubtest:parse-only:namedtuple-class.__new__:is inconsistent, runtime parameter '_' has a default value but stub parameter does not
+"""
 import os
 import sys
 
